@@ -4,7 +4,9 @@ C14 — A damaged record is never returned as data.
 import Klev.Proofs.CrcAlgebra
 import Klev.Proofs.ScanProofs
 import Klev.Proofs.Damage
+import Klev.Proofs.DamageFile
 import Klev.Proofs.TornAppend
+import Klev.Proofs.WitnessBytes
 namespace Klev.C14
 
 /-- Any change confined to at most 4 consecutive bytes of the bytes a CRC covers changes the
@@ -70,7 +72,83 @@ theorem cut_record_never_parses (v : Ver) (pre : List UInt8) (m : Msg) (h : m.En
     ∀ m' n, dec v (pre ++ (enc v m).take j) pre.length ≠ .ok m' n :=
   Klev.torn_record_not_parsed v pre m h j hj
 
+/-! ### the whole file, read through the intact positions of its index -/
+
+/-- Every record of an undamaged V2 log reads back from the position its index holds. -/
+theorem file_reads (ms : List Msg) (h : ∀ m ∈ ms, m.Encodable) (j : Nat) (hj : j < ms.length) :
+    dec .v2 (render .v2 ms) (render .v2 (ms.take j)).length =
+      .ok ms[j] (render .v2 (ms.take (j + 1))).length :=
+  Klev.file_reads ms h j hj
+
+/-- **One record overwritten in place** (≤ 4 consecutive bytes of its body outside the length fields): read
+through the same positions, the overwritten record is an error and *every other record of the file reads back
+unchanged* — "every read call whose answer would include an overwritten record fails … the others return
+what they returned before", at the level of one segment file. -/
+theorem damaged_file_reads (ms : List Msg) (h : ∀ m ∈ ms, m.Encodable) (i : Nat)
+    (hi : i < ms.length) (a d1 d2 z : List UInt8) (hsplit : v2Body ms[i] = a ++ d1 ++ z)
+    (hl : d1.length = d2.length) (h4 : d1.length ≤ 4) (hne : d1 ≠ d2)
+    (hlenFields : a.length + d1.length ≤ 16 ∨ 24 ≤ a.length)
+    (j : Nat) (hj : j < ms.length) :
+    (damagedFile ms i hi a d2 z).length = (render .v2 ms).length ∧
+    dec .v2 (damagedFile ms i hi a d2 z) (render .v2 (ms.take j)).length =
+      if j = i then .bad .crc else .ok ms[j] (render .v2 (ms.take (j + 1))).length :=
+  Klev.damaged_file_reads ms h i hi a d1 d2 z hsplit hl h4 hne hlenFields j hj
+
+/-- The file cut short at any length: records wholly below the cut read back, the others never parse. -/
+theorem truncated_file_reads (ms : List Msg) (h : ∀ m ∈ ms, m.Encodable) (c : Nat) (j : Nat)
+    (hj : j < ms.length) :
+    let f := (render .v2 ms).take c
+    ((render .v2 (ms.take (j + 1))).length ≤ c →
+      dec .v2 f (render .v2 (ms.take j)).length = .ok ms[j] (render .v2 (ms.take (j + 1))).length) ∧
+    (c < (render .v2 (ms.take (j + 1))).length →
+      ∀ m n, dec .v2 f (render .v2 (ms.take j)).length ≠ .ok m n) :=
+  Klev.truncated_file_reads ms h c j hj
+
+/-- **"no call ever returns a message that differs in any field from the one published at that offset"**:
+in every file damaged in one of these ways (body burst, stored CRC, cut), whatever a read at the position of
+record `j` returns as a message *is* record `j`. -/
+theorem damaged_never_other (ms : List Msg) (h : ∀ m ∈ ms, m.Encodable) (f : List UInt8)
+    (hf : FileDamage ms f) (j : Nat) (hj : j < ms.length) (m : Msg) (n : Nat)
+    (hd : dec .v2 f (render .v2 (ms.take j)).length = .ok m n) :
+    m = ms[j] ∧ n = (render .v2 (ms.take (j + 1))).length :=
+  Klev.damaged_never_other ms h f hf j hj m n hd
+
 end Klev.C14
+
+/-! ### Non-vacuity
+
+The theorems at concrete bytes: the message `Witness.wM` (offset 11, time −7, no key, value
+`[9, 8, 7]`) and the seven messages `Witness.wMs` (`Klev/Proofs/WitnessBytes.lean`). (More
+instances, with the decoder evaluated on the damaged bytes, are in `Klev/Proofs/Damage.lean`.) -/
+section NonVacuity
+open Klev Klev.Witness
+
+example := Klev.C14.small_damage_changes_crc [1, 2, 3] [4, 5] [10, 11, 12, 13] [10, 99, 12, 14] rfl
+  (by decide) (by decide)
+example := Klev.C14.single_byte_changes_crc [1, 2] [3] 5 7 (by decide)
+-- three stray bytes behind the 273 bytes of seven valid records
+example := Klev.C14.cut_in_header_is_error .v2 (render .v2 wMs ++ [1, 2, 3]) 273
+  (by rw [List.length_append, wMs_len]; decide) (by rw [List.length_append, wMs_len]; decide)
+-- the value `[9, 8, 7]` overwritten by `[9, 8, 6]` (body bytes 24–26; `a` = the 24 fixed bytes)
+example := Klev.C14.v2_body_damage [7, 7] [5] wM wM_enc ((v2Body wM).take 24) [9, 8, 7] [9, 8, 6]
+  ((v2Body wM).drop 27) (by decide +kernel) rfl (by decide) (by decide) (Or.inr (by decide +kernel))
+-- the two low bytes of the time field (body bytes 14–15)
+example := Klev.C14.v2_body_damage [] [] wM wM_enc ((v2Body wM).take 14) [255, 249] [0, 0]
+  ((v2Body wM).drop 16) (by decide +kernel) rfl (by decide) (by decide) (Or.inl (by decide +kernel))
+example := Klev.C14.v2_crc_field_damage [7, 7] [5] wM wM_enc [0, 0, 0, 0] rfl (by decide +kernel)
+-- the low byte of the offset (body byte 7): 11 → 10
+example := Klev.C14.v2_body_byte_damage [7, 7] [5] wM wM_enc ((v2Body wM).take 7) ((v2Body wM).drop 8) 11 10
+  (by decide +kernel) (by decide) (Or.inl (by decide +kernel))
+example := Klev.C14.untouched_record_reads_back .v2 [1, 2, 3] [9, 9, 9] [4] [8, 8] wM wM_enc rfl
+example := Klev.C14.cut_record_never_parses .v1 (render .v1 wMs) wM wM_enc 30 (by rw [wM_len.2]; decide)
+
+-- evaluated: the decoder on the damaged record
+example : dec .v2 ([7, 7] ++ crcBytes (v2Body wM) ++ ((v2Body wM).take 24 ++ [9, 8, 6] ++ (v2Body wM).drop 27) ++ [5]) 2 =
+    .bad .crc := by decide +kernel
+example : crc32c ([1, 2, 3] ++ [10, 11, 12, 13] ++ [4, 5]) ≠ crc32c ([1, 2, 3] ++ [10, 99, 12, 14] ++ [4, 5]) := by
+  decide +kernel
+
+end NonVacuity
 
 #print axioms Klev.C14.small_damage_changes_crc
 #print axioms Klev.C14.single_byte_changes_crc
@@ -81,3 +159,7 @@ end Klev.C14
 #print axioms Klev.C14.v2_body_byte_damage
 #print axioms Klev.C14.untouched_record_reads_back
 #print axioms Klev.C14.cut_record_never_parses
+#print axioms Klev.C14.file_reads
+#print axioms Klev.C14.damaged_file_reads
+#print axioms Klev.C14.truncated_file_reads
+#print axioms Klev.C14.damaged_never_other
